@@ -1,0 +1,30 @@
+//go:build verif
+
+package NoKV
+
+import (
+	"github.com/feichai0017/NoKV/lsm"
+)
+
+// VerifLSM exposes the LSM tree to the verification harness.
+func (db *DB) VerifLSM() *lsm.LSM { return db.lsm }
+
+// VerifGCRewrite rewrites (garbage-collects) one sealed value-log file
+// unconditionally, bypassing sampling and discard-ratio thresholds.
+func (db *DB) VerifGCRewrite(bucket, fid uint32) error {
+	return db.vlog.rewrite(bucket, fid)
+}
+
+// VerifVlogFiles lists value-log file ids per bucket and the active file id.
+func (db *DB) VerifVlogFiles() (files map[uint32][]uint32, active map[uint32]uint32) {
+	files = map[uint32][]uint32{}
+	active = map[uint32]uint32{}
+	for b, mgr := range db.vlog.managers {
+		if mgr == nil {
+			continue
+		}
+		files[uint32(b)] = mgr.ListFIDs()
+		active[uint32(b)] = mgr.ActiveFID()
+	}
+	return files, active
+}
